@@ -452,3 +452,180 @@ class C02(NlpCheck):
                 self.count("z-samples-compared")
         self.count("root-times-compared")
         return out
+
+
+def subst_expr(e, mp):
+    k = e[0]
+    if (k,) + tuple(e[1:2]) in mp and k in ('p', 'pc', 'pcp', 'v', 'T', 't0'):
+        return mp[(k,) + tuple(e[1:2])]
+    if k in ('+', '-', '*', '/'):
+        return (k, subst_expr(e[1], mp), subst_expr(e[2], mp))
+    if k == 'neg':
+        return ('neg', subst_expr(e[1], mp))
+    if k == 'pow':
+        return ('pow', subst_expr(e[1], mp), e[2])
+    return e
+
+
+def subst_desc(desc, mp):
+    d = copy.deepcopy(desc)
+    for key in ('ode', 'quad', 'alg'):
+        d[key] = [subst_expr(e, mp) for e in d[key]]
+    d['phs'] = [(k, subst_expr(e, mp)) for k, e in d['phs']]
+    if d['obj'] is not None:
+        d['obj'] = subst_expr(d['obj'], mp)
+    for c in d['cons']:
+        for key in ('a', 'b', 'c'):
+            if key in c:
+                c[key] = [subst_expr(e, mp) for e in c[key]]
+        c['offs'] = [(subst_expr(e, mp), o) for e, o in c.get('offs', [])]
+    return d
+
+
+def current_p(b):
+    """the parameter vector the solver would get now (exact doubles)"""
+    import casadi as ca
+    with B.quiet():
+        v = b.opti.debug.value(b.opti.p, b.opti.initial()) if b.np_opti else []
+    v = ca.DM(v).full().flatten().tolist() if b.np_opti else []
+    return [Fr(x) for x in v]
+
+
+def impl_vs_impl(chk, bA, bB, xv, pA, pB, what):
+    fA, gA, lA, uA = B.eval_nlp(bA, xv, pA)
+    fB, gB, lB, uB = B.eval_nlp(bB, xv, pB)
+    if not close(fA[0], fB[0], max(fA[1], fB[1], 1.0)):
+        return "%s: objective %s vs %s" % (what, float(fA[0]), float(fB[0]))
+    aA = B.atoms_of_impl(gA, lA, uA)
+    aB = B.atoms_of_impl(gB, lB, uB)
+    um, ui, ex = Mo.match_atoms([("A", [v]) for v, _ in aA], [[(v, m)] for v, m in aB])
+    um = [u for u in um if not (u[1][0] >= 0 and False)]
+    if um or ui:
+        return "%s: %d rows of the first and %d rows of the second problem have no counterpart (e.g. %s)" % (
+            what, len(um), len(ui), [float(u[1][0]) for u in um[:3]] + [float(aB[j][0]) for j in ui[:3]])
+    return None
+
+
+@register
+class C09(NlpCheck):
+    pid = "C09"
+    slices = ["parametric-nlp", "constants-written-in", "set_value-histories"]
+    tags = None
+    whole = True
+    want_f = True
+    profiles = [
+        ("parametric-nlp",
+         {'methods': ALLM + [('ss', 'euler')], 'grids': FIXED_GRIDS + ['free', 'uniform_locT'], 'horizon': ['num', 'param', 'param', 'freeT'],
+          'obj_kinds': ['at_tf', 'integral', 'sum_plus'], 'ncons': (1, 3), 'offset_prob': 0.3,
+          'features': {'p': 0.9, 'pc': 0.8, 'pcp': 0.7, 'v': 0.3}, 'Ns': [1, 2, 3, 4], 'Ms': [1, 2, 3], 'degrees': [1, 2, 3]}, 45, 500),
+    ]
+
+    def explanation(self):
+        return ("theorems: substitution lemma eval(e[σ])=eval e in the updated environment (induction on Expr), constants written "
+                "in for global parameters; every environment of the transcription sees pt.P and column k of per-interval "
+                "parameters (column N / N-1 at the final node); horizon parameter only enters through its value; last-write-wins "
+                "and frame property of the value store. correspondence: NLP with parameters of every kind vs model; the same "
+                "OCP with constants hard-coded vs with parameters (real rockit both sides); set_value histories before/after "
+                "transcription vs last assigned values")
+
+    def correspondence(self):
+        NlpCheck.correspondence(self)
+        self.constants_slice()
+        self.history_slice()
+
+    def constants_slice(self):
+        n = 10 if self.tier == 'quick' else 120
+        prof = {'methods': ALLM, 'grids': FIXED_GRIDS, 'horizon': ['num', 'param'], 'obj_kinds': ['at_tf', 'integral'], 'ncons': (1, 2),
+                'features': {'p': 1.0, 'pc': 0.4, 'pcp': 0.3}, 'Ns': [1, 2, 3], 'Ms': [1, 2], 'degrees': [1, 2, 3]}
+        import casadi as ca
+        for _ in range(n):
+            dA = G.gen_case(self.rng, prof)
+            npg = sum(dA['params'][''])
+            vals = [Fr(self.rng.randint(1, 12), 4) for _ in range(npg)]
+            dA['param_values'] = {}
+            off = 0
+            for i, sz in enumerate(dA['params']['']):
+                dA['param_values'][('', i)] = ca.DM([float(v) for v in vals[off:off + sz]])
+                off += sz
+            N = dA['method']['N']
+            for i, sz in enumerate(dA['params']['control']):
+                dA['param_values'][('control', i)] = ca.DM([[float(Fr(self.rng.randint(1, 12), 4)) for _ in range(N)] for _ in range(sz)])
+            for i, sz in enumerate(dA['params']['control+']):
+                dA['param_values'][('control+', i)] = ca.DM([[float(Fr(self.rng.randint(1, 12), 4)) for _ in range(N + 1)] for _ in range(sz)])
+            mp = {('p', i): Mo.E.C(vals[i]) for i in range(npg)}
+            dB = subst_desc(dA, mp)
+            for key in ('t0', 'T'):
+                if dA[key][0] == 'p':
+                    dB[key] = ('num', vals[dA[key][1]])
+            try:
+                bA = B.build(dA)
+                bB = B.build(dB)
+            except Exception as e:
+                self.slice_ok["constants-written-in"] = False
+                self.violation("building parametric/constant twin raised %r" % (e,), {"desc": dA}, {"kind": "exception"})
+                return
+            if bA.nx_opti != bB.nx_opti:
+                self.slice_ok["constants-written-in"] = False
+                self.violation("parametric and constant problems have different numbers of decision variables", {"desc": dA}, {"kind": "constants", "what": "nx"})
+                return
+            self.record_case(dA, True, {"three_way": True, "values": [str(v) for v in vals], "method": dA['method']})
+            self.count("constants-twin")
+            try:
+                xv, _, _ = En.rand_point(self.rng, bA)
+                msg = impl_vs_impl(self, bA, bB, xv, current_p(bA), current_p(bB), "parameters vs constants")
+            except ZeroDivisionError:
+                continue
+            if msg:
+                self.slice_ok["constants-written-in"] = False
+                self.violation(msg, {"desc": dA, "values": vals, "x": xv}, {"kind": "constants", "method": dA['method']['kind']})
+                return
+
+    def history_slice(self):
+        n = 8 if self.tier == 'quick' else 100
+        prof = {'methods': ALLM, 'grids': ['uniform', 'geometric'], 'horizon': ['num'], 'obj_kinds': ['at_tf'], 'ncons': (0, 1),
+                'features': {'p': 1.0, 'pc': 1.0, 'pcp': 0.7}, 'Ns': [2, 3], 'Ms': [1, 2], 'degrees': [1, 2]}
+        import casadi as ca
+        import numpy as np
+        for _ in range(n):
+            d = G.gen_case(self.rng, prof)
+            b = B.build(d, transcribe=False)
+            ocp = b.ocp
+            N = d['method']['N']
+            plist = [('', i, p) for i, p in enumerate(b.params[''])] + [('control', i, p) for i, p in enumerate(b.params['control'])] + \
+                    [('control+', i, p) for i, p in enumerate(b.params['control+'])]
+            last = {}
+            ops = []
+            transcribed = False
+            for step in range(self.rng.randint(3, 9)):
+                if self.rng.random() < 0.3:
+                    with B.quiet():
+                        ocp.sample(b.states[0], grid='control')
+                    transcribed = True
+                    ops.append("sample")
+                else:
+                    gk, i, p = self.rng.choice(plist)
+                    cols = {'': 1, 'control': N, 'control+': N + 1}[gk]
+                    val = np.array([[self.rng.randint(-8, 8) / 4.0 for _ in range(cols)] for _ in range(p.numel())])
+                    with B.quiet():
+                        ocp.set_value(p, ca.DM(val) if gk else ca.DM(val[:, 0]))
+                    last[(gk, i)] = val
+                    ops.append("set_value %s%d" % (gk, i))
+            self.evaluations += 1
+            self.count("set_value-history")
+            with B.quiet():
+                for gk, i, p in plist:
+                    if gk == '':
+                        got = np.array(ocp.initial_value(ocp.value(ca.vec(p)))).reshape(-1, 1)
+                    elif gk == 'control':
+                        got = np.array(ocp.initial_value(ocp.sample(ca.vec(p), grid='control-')[1])).reshape(p.numel(), -1)
+                    else:
+                        got = np.array(ocp.initial_value(ocp.sample(ca.vec(p), grid='control')[1])).reshape(p.numel(), -1)
+                    want = last.get((gk, i))
+                    if want is None:
+                        cols = {'': 1, 'control': N, 'control+': N + 1}[gk]
+                        want = np.ones((p.numel(), cols))
+                    if got.shape != want.shape or not np.allclose(got, want, rtol=0, atol=1e-12):
+                        self.slice_ok["set_value-histories"] = False
+                        self.violation("after %s the value of parameter %s%d is %s, last assigned %s" % (ops, gk, i, got.tolist(), want.tolist()),
+                                       {"desc": d, "ops": ops}, {"kind": "set_value-history", "grid": gk})
+                        return
